@@ -180,12 +180,18 @@ fn drive_str<T>(r: Option<Drive<T>>, f: impl Fn(&T) -> String) -> String {
     }
 }
 
-/// The `<key>.adapt` value (PROTOCOL.md §5, iterator adaptors), ten parts joined by `;`:
+/// Largest number of `next()` calls made before `count()` / `last()` in parts 11 and 12 of ADAPT.
+const ADVANCE_MAX: usize = 20;
+
+/// The `<key>.adapt` value (PROTOCOL.md §5, iterator adaptors), twelve parts joined by `;`:
 /// `count();last();skip(1)..;nth(2);step_by(2)..;next() then nth(1);next() then count();`
-/// `skip(1).count();peekable() peek() for_each..;zip of two`. Every part on a fresh iterator from
-/// `mk` (the last one on two of them, alive at the same time), the whole under one
-/// `catch_unwind`. The capped collections take at most `cap` calls of `next()` (`cap` if none of
-/// them returned `None`). The parts are computed first-to-last, last-to-first when `rev`.
+/// `skip(1).count();peekable() peek() for_each..;zip of two;`
+/// `next() k times then count(), k = 0..=min(n, 20);next() k times then last(), same k`.
+/// Every part on a fresh iterator from `mk` (part 10 on two of them, alive at the same time;
+/// parts 11 and 12 on a fresh one per k), the whole under one `catch_unwind`. The capped
+/// collections take at most `cap` calls of `next()` (`cap` if none of them returned `None`). The
+/// parts are computed first-to-last, last-to-first when `rev` (the k of parts 11 and 12 then run
+/// downwards).
 fn adapt<I: Iterator>(
     mk: impl Fn() -> I,
     cap: usize,
@@ -199,6 +205,29 @@ fn adapt<I: Iterator>(
     let coll = |d: Drive<I::Item>| match d {
         Drive::Cap => "cap".to_string(),
         Drive::Done(v) => list(v.iter().map(&f).collect()),
+    };
+    // parts 11 and 12: a fresh iterator advanced by k calls of `next()` and then consumed by
+    // `finish`, for k = 0..=min(n, 20) where n is what a plain `next()` walk yields
+    let advanced = |finish: &dyn Fn(I) -> String, sep: &str| {
+        let n = match drive(mk(), cap) {
+            Drive::Done(v) => v.len(),
+            Drive::Cap => return "cap".to_string(),
+        };
+        let top = n.min(ADVANCE_MAX);
+        let mut vals = vec![String::new(); top + 1];
+        let mut one = |k: usize| {
+            let mut it = mk();
+            for _ in 0..k {
+                let _ = it.next();
+            }
+            vals[k] = finish(it);
+        };
+        if rev {
+            (0..=top).rev().for_each(&mut one);
+        } else {
+            (0..=top).for_each(&mut one);
+        }
+        vals.join(sep)
     };
     guard(|| {
         parts(
@@ -235,6 +264,9 @@ fn adapt<I: Iterator>(
                     let b = mk();
                     a.zip(b).count().to_string()
                 },
+                // advanced from the front, then counted / consumed to the last element
+                &|| advanced(&|it| it.count().to_string(), ","),
+                &|| advanced(&|it| opt(it.last()), "|"),
             ],
         )
         .join(";")
@@ -804,6 +836,56 @@ where
     });
 }
 
+/// `pfrom.as.<k>` / `pfrom.aso.<k>` (PROTOCOL.md §5, unknown): the `Unknown` view is wrapped with
+/// the public `From<Unknown> for Packet` and converted out of that `Packet` again, borrowed
+/// (`Packet::try_as`) and owned (`TryFrom<Packet>`). `Unknown` is not `Clone`: every `Packet` is
+/// made from a further `Unknown::parse(u.data())`. (A macro, not a generic function: the
+/// borrowed conversion ties the typed view to the `Packet` local it is taken from.)
+macro_rules! pfrom_step {
+    ($st:ident, $pfx:ident, $k:literal, $u:ident, $T:ty) => {
+        $st.step(move |out, rev| {
+            let [borrowed, owned] = parts(
+                rev,
+                [
+                    &|| {
+                        pres(&guard(|| -> Result<(), RtcpParseError> {
+                            let p = Packet::from(Unknown::parse($u.data())?);
+                            let r = p.try_as::<$T>().map(|_| ());
+                            r
+                        }))
+                    },
+                    &|| {
+                        pres(&guard(|| -> Result<$T, RtcpParseError> {
+                            let p = Packet::from(Unknown::parse($u.data())?);
+                            <$T>::try_from(p)
+                        }))
+                    },
+                ],
+            );
+            emit(
+                out,
+                rev,
+                $pfx,
+                &[
+                    (concat!("pfrom.as.", $k), &borrowed),
+                    (concat!("pfrom.aso.", $k), &owned),
+                ],
+            );
+        });
+    };
+}
+
+/// The `pfrom.*` keys of the `unknown` view where it is the view of the request.
+fn unknown_pfrom_steps<'s>(st: &mut Steps<'s>, pfx: &'s str, u: &'s Unknown<'s>) {
+    pfrom_step!(st, pfx, "app", u, App);
+    pfrom_step!(st, pfx, "bye", u, Bye);
+    pfrom_step!(st, pfx, "rr", u, ReceiverReport);
+    pfrom_step!(st, pfx, "sdes", u, Sdes);
+    pfrom_step!(st, pfx, "sr", u, SenderReport);
+    pfrom_step!(st, pfx, "tfb", u, TransportFeedback);
+    pfrom_step!(st, pfx, "pfb", u, PayloadFeedback);
+}
+
 fn unknown_steps<'s>(st: &mut Steps<'s>, pfx: &'s str, u: &'s Unknown<'s>, base: Base) {
     st.kv(pfx, "data", move |_| slice_val(base, || u.data()));
     as_step::<App>(st, pfx, "app", u);
@@ -899,6 +981,34 @@ fn clone_inner<'a>(p: &Packet<'a>) -> Option<Packet<'a>> {
     })
 }
 
+fn variant_name(p: &Packet) -> &'static str {
+    match p {
+        Packet::App(_) => "app",
+        Packet::Bye(_) => "bye",
+        Packet::Rr(_) => "rr",
+        Packet::Sdes(_) => "sdes",
+        Packet::Sr(_) => "sr",
+        Packet::TransportFeedback(_) => "tfb",
+        Packet::PayloadFeedback(_) => "pfb",
+        Packet::Unknown(_) => "unknown",
+    }
+}
+
+/// `pfrom.variant` (PROTOCOL.md §5, packet): the typed view is taken out of the parsed `Packet`
+/// (`try_as::<T>()`) and converted back with the public `From<T> for Packet`; the variant of
+/// that second `Packet`. `err:<E>` / `panic` if the way out fails.
+fn pfrom_variant<'s, T>(pkt: &'s Packet<'s>) -> String
+where
+    T: RtcpPacket + TryFrom<&'s Packet<'s>, Error = RtcpParseError>,
+    Packet<'s>: From<T>,
+{
+    match guard(|| pkt.try_as::<T>().map(|v| variant_name(&Packet::from(v)))) {
+        None => "panic".to_string(),
+        Some(Err(e)) => format!("err:{}", perr(&e)),
+        Some(Ok(name)) => name.to_string(),
+    }
+}
+
 /// The `packet` view after its `res` key. `bytes` are the bytes `pkt` was parsed from. The keys
 /// of the inner view (and `padding`) are taken from the typed view inside `inner`: `pkt` itself,
 /// or (pass B) a packet of the same variant holding a clone of it.
@@ -911,19 +1021,7 @@ fn packet_steps<'s>(
     base: Base,
     conv: bool,
 ) {
-    st.kv(pfx, "variant", move |_| {
-        match pkt {
-            Packet::App(_) => "app",
-            Packet::Bye(_) => "bye",
-            Packet::Rr(_) => "rr",
-            Packet::Sdes(_) => "sdes",
-            Packet::Sr(_) => "sr",
-            Packet::TransportFeedback(_) => "tfb",
-            Packet::PayloadFeedback(_) => "pfb",
-            Packet::Unknown(_) => "unknown",
-        }
-        .to_string()
-    });
+    st.kv(pfx, "variant", move |_| variant_name(pkt).to_string());
     st.kv(pfx, "is_unknown", move |_| {
         match guard(|| pkt.is_unknown()) {
             Some(true) => "true",
@@ -965,6 +1063,25 @@ fn packet_steps<'s>(
         Packet::Unknown(p) => unknown_steps(st, pfx, p, base),
     }
     if conv {
+        match pkt {
+            Packet::App(_) => st.kv(pfx, "pfrom.variant", move |_| pfrom_variant::<App>(pkt)),
+            Packet::Bye(_) => st.kv(pfx, "pfrom.variant", move |_| pfrom_variant::<Bye>(pkt)),
+            Packet::Rr(_) => {
+                st.kv(pfx, "pfrom.variant", move |_| pfrom_variant::<ReceiverReport>(pkt))
+            }
+            Packet::Sdes(_) => st.kv(pfx, "pfrom.variant", move |_| pfrom_variant::<Sdes>(pkt)),
+            Packet::Sr(_) => {
+                st.kv(pfx, "pfrom.variant", move |_| pfrom_variant::<SenderReport>(pkt))
+            }
+            Packet::TransportFeedback(_) => {
+                st.kv(pfx, "pfrom.variant", move |_| pfrom_variant::<TransportFeedback>(pkt))
+            }
+            Packet::PayloadFeedback(_) => {
+                st.kv(pfx, "pfrom.variant", move |_| pfrom_variant::<PayloadFeedback>(pkt))
+            }
+            // nothing to take out of an unknown packet
+            Packet::Unknown(_) => {}
+        }
         conv_step::<App>(st, pfx, "app", pkt, bytes);
         conv_step::<Bye>(st, pfx, "bye", pkt, bytes);
         conv_step::<ReceiverReport>(st, pfx, "rr", pkt, bytes);
@@ -1203,6 +1320,7 @@ fn dump_runs(pfx: &str, kind: Kind, bytes: &[u8], runs: &mut [Run]) {
                     let mut st = Steps::new();
                     header_steps(&mut st, pfx, p);
                     unknown_steps(&mut st, pfx, p, base);
+                    unknown_pfrom_steps(&mut st, pfx, p);
                     st.run(run.out, run.rev);
                 }
             }
